@@ -7,6 +7,7 @@ set -u
 SD=$1; WT=$2; NAME=$3; shift 3; PROPS="$@"
 OUT=/verif/seeded/$NAME; mkdir -p $OUT
 DEMODIR=$(python3 -c "import json;print(json.load(open('$SD/meta.json'))['demo_package_dir'])")
+RUN=$(grep -o "^func Test[A-Za-z0-9_]*" $SD/demo_test.go | sed 's/func //' | paste -sd'|')
 cd $WT && git checkout -q -- . && git clean -fdq
 log=$OUT/confirm.log; : > $log
 echo "== apply + build" | tee -a $log
@@ -16,10 +17,10 @@ GOFLAGS= GOPROXY=off go test -count=1 ./... 2>&1 | grep -v "no test files" | tee
 grep -E "^(FAIL|---)" $log | head
 cp $SD/demo_test.go $DEMODIR/zz_seed_demo_test.go
 echo "== demo with change (must fail)" | tee -a $log
-GOFLAGS= GOPROXY=off go test -count=1 -run 'Demo|TestC09Paused' ./$DEMODIR/ 2>&1 | tail -3 | tee -a $log
+GOFLAGS= GOPROXY=off go test -count=1 -run "$RUN" ./$DEMODIR/ 2>&1 | tail -3 | tee -a $log
 git checkout -q -- . 
 echo "== demo without change (must pass)" | tee -a $log
-GOFLAGS= GOPROXY=off go test -count=1 -run 'Demo|TestC09Paused' ./$DEMODIR/ 2>&1 | tail -3 | tee -a $log
+GOFLAGS= GOPROXY=off go test -count=1 -run "$RUN" ./$DEMODIR/ 2>&1 | tail -3 | tee -a $log
 rm -f $DEMODIR/zz_seed_demo_test.go; git clean -fdq
 echo "== my checks on /repo with the change" | tee -a $log
 if [ -n "$(git -C /repo status --porcelain)" ]; then echo "/repo is dirty: commit first"; exit 1; fi
